@@ -14,6 +14,7 @@ Local Open Scope N_scope.
 Record entry := mkEntry {
   e_peer : N;        (* the peer the request was sent to (transport id) *)
   e_tx : bool;       (* the oneshot sender is still in the context *)
+  e_rx : bool;       (* the waiting future (the oneshot receiver) still exists *)
   e_started : N;     (* ms *)
   e_timeout : N;     (* ms *)
 }.
@@ -33,22 +34,27 @@ Inductive ev :=
 | Send (id peer now timeout : N)     (* send_dht_request: sweep, then insert *)
 | Deliver (id from payload : N)      (* a Response frame carrying [id] arrives on [from]'s authenticated connection *)
 | Finish (id : N)                    (* the waiting future returns (reply, timeout or send error) and removes its entry *)
-| Cancel (id : N).                   (* the waiting future is dropped: the table is not touched *)
+| Cancel (id : N).                   (* the waiting future is dropped: the entry stays (until swept), its receiver is gone *)
 
 (* a completion handed to the waiting request: (request id, payload) *)
 Definition step (t : table) (e : ev) : table * option (N * N) :=
   match e with
-  | Send id peer now timeout => (insert (sweep now t) id (mkEntry peer true now timeout), None)
+  | Send id peer now timeout => (insert (sweep now t) id (mkEntry peer true true now timeout), None)
   | Deliver id from payload =>
       match lookup t id with
       | Some en =>
           if (e_peer en =? from) && e_tx en
-          then (insert t id (mkEntry (e_peer en) false (e_started en) (e_timeout en)), Some (id, payload))
+          then (insert t id (mkEntry (e_peer en) false (e_rx en) (e_started en) (e_timeout en)),
+                if e_rx en then Some (id, payload) else None)   (* sending to a dropped receiver reaches nobody *)
           else (t, None)
       | None => (t, None)
       end
   | Finish id => (remove t id, None)
-  | Cancel _ => (t, None)
+  | Cancel id =>
+      match lookup t id with
+      | Some en => (insert t id (mkEntry (e_peer en) (e_tx en) false (e_started en) (e_timeout en)), None)
+      | None => (t, None)
+      end
   end.
 
 Fixpoint run (t : table) (evs : list ev) : table * list (option (N * N)) :=
